@@ -23,6 +23,7 @@ import (
 //
 //	call <tag> | callres <tag> | notify <tag> | batch <tag> (Arg2: c|n per entry, e.g. "cnc")
 //	cancel <tag>           cancel the context of operation <tag>
+//	setid <tag> <tag2>     Response.SetID on the completed response of <tag> with the id of request <tag2>
 //	deadline <tag>         let the deadline of operation <tag> pass (its context was created with a timeout)
 //	reply <tags>           peer sends one message answering the requests with these tags (comma separated;
 //	                       a single tag = bare object, several = array); modifiers in Arg2:
@@ -55,6 +56,7 @@ type cliRun struct {
 	peer    *vend
 	cch     *vend
 	ids     map[string]string // request tag -> id as seen by the peer
+	rsps    map[string]*jrpc2.Response
 	cancels map[string]context.CancelFunc
 	Stuck   string
 	Leaked  []string
@@ -132,7 +134,7 @@ func (r *cliRun) replyText(tag, mod string) (string, bool) {
 }
 
 func runClientScenario(t *testing.T, sc *cliScenario, pickFn func(int) int) *cliRun {
-	r := &cliRun{sc: sc, ids: map[string]string{}, cancels: map[string]context.CancelFunc{}}
+	r := &cliRun{sc: sc, ids: map[string]string{}, rsps: map[string]*jrpc2.Response{}, cancels: map[string]context.CancelFunc{}}
 	r.sched = &sched{}
 	out := outPath()
 	if out != "" {
@@ -293,6 +295,9 @@ func runClientScenario(t *testing.T, sc *cliScenario, pickFn func(int) int) *cli
 						case "call":
 							rsp, err := r.cli.Call(ctx, "m", []string{tag})
 							if err == nil {
+								r.mu.Lock()
+								r.rsps[tag] = rsp
+								r.mu.Unlock()
 								r.logf("ret %s ok:%s", tag, rsp.ResultString())
 							} else {
 								r.logf("ret %s %s", tag, describeErr(err))
@@ -328,6 +333,16 @@ func runClientScenario(t *testing.T, sc *cliScenario, pickFn func(int) int) *cli
 							r.logf("ret %s batch[%s]", tag, strings.Join(parts, "\x1f"))
 						}
 					}()
+				case "setid":
+					// what a proxy such as jhttp.Bridge does with a completed response: relabel it - here
+					// with the id of another request, possibly one still in flight
+					r.mu.Lock()
+					rsp, id := r.rsps[op.Arg], r.ids[op.Arg2]
+					r.mu.Unlock()
+					if rsp != nil && id != "" {
+						r.logf("setid %s %s", op.Arg, id)
+						rsp.SetID(id)
+					}
 				case "cancel":
 					r.logf("cancel %s", op.Arg)
 					r.mu.Lock()
